@@ -927,4 +927,22 @@ theorem connSetCopy_eq (c : ConnSet) : Gen.Procs.connSetCopy c = .ok c.copy := b
     simp [Gen.Procs.connSetCopy, ConnSet.copy, ConnSet.mk', Proto.all, List.foldlM, ConnSet.get, ConnSet.set, PortSet.copy,
       ok_bind, pure_ok, bind_ok_id, ite_ok]
 
+/-- `PortSet.AddPort` (an `intstr` of type String is a name, otherwise the number) -/
+theorem portSetAddPort_eq (p : PortSet) (r : PortRef) :
+    (match r with
+     | .name s => Gen.Procs.portSetAddPort p true s 0
+     | .num n => Gen.Procs.portSetAddPort p false "" n) = .ok (p.addPort r) := by
+  cases r <;> rfl
+
+/-- `PortSet.RemovePort` -/
+theorem portSetRemovePort_eq (p : PortSet) (r : PortRef) :
+    (match r with
+     | .name s => Gen.Procs.portSetRemovePort p true s 0
+     | .num n => Gen.Procs.portSetRemovePort p false "" n) = .ok (p.removePort r) := by
+  cases r <;> rfl
+
+/-- `PortSet.AddPortRange` -/
+theorem portSetAddPortRange_eq (p : PortSet) (lo hi : Int) :
+    Gen.Procs.portSetAddPortRange p lo hi = .ok (p.addPortRange lo hi) := rfl
+
 end Netpol.Tie.Procs
